@@ -4,6 +4,8 @@ package main
 // non-negativity monitors (C01, C02) computed from the node's own exports.
 
 import (
+	"unsafe"
+	"reflect"
 	"sync"
 	"strconv"
 	"regexp"
@@ -144,6 +146,7 @@ type HistResult struct {
 	C02       []MonitorFailure
 	C06       []MonitorFailure
 	C06Agree  int
+	Derived   []string // per block: state the node derives in memory from what it persisted (grace periods, executor)
 	C05       []MonitorFailure
 	C03       []MonitorFailure
 	C27       []MonitorFailure
@@ -194,6 +197,7 @@ func runRecorded(h *History, o *execOpts) (*HistResult, *Node) {
 		}
 		em := n.App.VerifAppDB().Emission()
 		res.Emissions = append(res.Emissions, em.String())
+		res.Derived = append(res.Derived, derivedState(n))
 		if o.Monitors || o.KeepExports {
 			e := n.Export()
 			if o.KeepExports {
@@ -246,6 +250,7 @@ type genOpts struct {
 	KeepExports bool
 	TimeWalk    bool
 	CheckDeliver bool // run every transaction in check mode on the in-flight state right before delivering it (C06)
+	NetworkUpdate bool // all validators vote a network version that is adopted a few blocks into the history (needs spec.Versions without it)
 	FailFrame    bool // C03: a rejected transaction changes nothing but one account's balance (the fee payer's)
 	FeeRoute     bool // C27: a commission paid in a coin with a reserve AND a pool takes the cheaper route
 	CandAuth     bool // C05: candidate settings change only by the owner (on/off also by the control address)
@@ -292,6 +297,16 @@ func genHistory(seed uint64, spec *GenesisSpec, g *genOpts) (*History, *HistResu
 			}
 			txs = append(txs, raw)
 			gens = append(gens, gt)
+		}
+		if g.NetworkUpdate && b == 1 {
+			for vi := 0; vi < spec.NVals; vi++ {
+				owner := n.Accts[vi%len(n.Accts)]
+				raw := n.MkTx(owner, transaction.TypeVoteUpdate, transaction.VoteUpdateDataV230{Version: "v330", PubKey: n.Vals[vi].Pub,
+					Height: uint64(InitialHeight + 3 + int(seed%3))}, 0, w.nextNonce(owner), 1, nil)
+				w.nonce[owner.Addr]++
+				txs = append(txs, raw)
+				gens = append(gens, &GenTx{Kind: "voteupdate-all", Raw: raw, Sender: owner})
+			}
 		}
 		opts := BlockOpts{}
 		if g.Absences && r.Intn(3) == 0 {
@@ -668,4 +683,33 @@ func checkTxHeight(n *Node) uint64 {
 		}
 	})
 	return uint64(n.Height + checkTxOffsetVal)
+}
+
+
+// derivedState: what the application keeps in memory but derives from persisted data (rebuilt by initState after
+// a restart): the grace periods and the transaction executor in force.  Read through reflection (unexported
+// fields of minter.Blockchain; read-only).
+func derivedState(n *Node) string {
+	defer func() { recover() }()
+	bv := reflect.ValueOf(n.App).Elem()
+	out := fmt.Sprintf("executor=%v", reflect.Indirect(reflect.NewAt(bv.FieldByName("executor").Type(), unsafe.Pointer(bv.FieldByName("executor").UnsafeAddr()))).Elem().Type())
+	gf := bv.FieldByName("grace")
+	if gf.IsValid() && !gf.IsNil() {
+		gp := gf.Elem().FieldByName("gracePeriods")
+		var l []string
+		for i := 0; i < gp.Len(); i++ {
+			p := gp.Index(i).Elem()
+			l = append(l, fmt.Sprintf("[%d,%d,%v]", p.FieldByName("from").Uint(), p.FieldByName("to").Uint(), p.FieldByName("upgrade").Bool()))
+		}
+		sort.Strings(l)
+		// duplicates carry no meaning (a period is a set of heights)
+		var u []string
+		for i, x := range l {
+			if i == 0 || x != l[i-1] {
+				u = append(u, x)
+			}
+		}
+		out += " grace=" + strings.Join(u, "")
+	}
+	return out
 }
